@@ -361,7 +361,8 @@ func (vc *VC) wfFacts(term string, t types.Type, depth int) []string {
 			return []string{inRange(term, t)}
 		}
 		if tt.Info()&types.IsString != 0 {
-			return nil
+			// a Go string is shorter than 2^62 bytes
+			return []string{"(< (str.len " + term + ") 4611686018427387904)"}
 		}
 	case *types.Pointer, *types.Map, *types.Signature, *types.Chan:
 		return []string{"(>= " + term + " 0)"}
@@ -1078,6 +1079,13 @@ func (vc *VC) makeIface(st *State, v *Val, it types.Type) *Val {
 	t := v.T
 	if _, ok := types.Unalias(t).Underlying().(*types.Interface); ok {
 		return &Val{T: it, S: v.S}
+	}
+	if v.S == "" && v.P != nil {
+		// pointer to a local or to a field: an opaque non-nil interface value that
+		// remembers the executor-level pointer (used by json.Unmarshal and friends)
+		a := vc.fresh("ifp", "Any")
+		vc.assume(fmt.Sprintf("(and (wf_any %s) (= (atag %s) %d))", a, a, vc.u.tagOf(t)))
+		return &Val{T: it, S: a, P: v.P}
 	}
 	if v.S == "" {
 		vc.unsupported(st, "makeinterface-nonsmt", token.Position{})
